@@ -493,10 +493,12 @@ class Session:
     def extract_server_buf(self):
         """Extracts packets from session which together contain complete TLS_Records"""
         self.server_counter += 1
-        self.server_packet_buffer.sort(key=lambda x: x.seq)
+        # TCP sequence numbers wrap at 2**32: order and compare them relative to a buffered segment
+        base = self.server_packet_buffer[0].seq
+        self.server_packet_buffer.sort(key=lambda x: (x.seq - base + 2 ** 31) % 2 ** 32)
 
         for i in range(0, len(self.server_packet_buffer) - 1):
-            if self.server_packet_buffer[i].seq + len(self.server_packet_buffer[i].tls_data) != \
+            if (self.server_packet_buffer[i].seq + len(self.server_packet_buffer[i].tls_data)) % 2 ** 32 != \
                     self.server_packet_buffer[i + 1].seq:
                 # need more packets (missing packets)
                 return
@@ -546,10 +548,12 @@ class Session:
     def extract_client_buf(self):
         """Extracts packets from session which together contain complete TLS_Records"""
         self.client_counter += 1
-        self.client_packet_buffer.sort(key=lambda x: x.seq)
+        # TCP sequence numbers wrap at 2**32: order and compare them relative to a buffered segment
+        base = self.client_packet_buffer[0].seq
+        self.client_packet_buffer.sort(key=lambda x: (x.seq - base + 2 ** 31) % 2 ** 32)
 
         for i in range(0, len(self.client_packet_buffer) - 1):
-            if self.client_packet_buffer[i].seq + len(self.client_packet_buffer[i].tls_data) != \
+            if (self.client_packet_buffer[i].seq + len(self.client_packet_buffer[i].tls_data)) % 2 ** 32 != \
                     self.client_packet_buffer[i + 1].seq:
                 # need more packets (missing packets)
                 return
